@@ -105,7 +105,17 @@ def same(a, b):
             return False
         if a is b or not _depth_ok():
             return True
-        return same_dict(vars(a), vars(b))
+        if hasattr(a, '_params') and hasattr(type(a), '_lazyproperties'):
+            # aperture objects: class and parameters (positions, radii, angle) by value; their lazyproperty
+            # caches (filled or not, depending on use) are derived values, not part of the value
+            return all(same(getattr(a, n), getattr(b, n)) for n in a._params)
+        from astropy.utils import lazyproperty
+        cls = type(a)
+
+        def state(o):       # the PUBLIC instance attributes, without lazyproperty caches and private scratch state
+            return {k: v for k, v in vars(o).items()
+                    if not k.startswith('_') and not isinstance(getattr(cls, k, None), lazyproperty)}
+        return same_dict(state(a), state(b))
     aa, bb = np.asarray(a), np.asarray(b)
     if aa.dtype == object or bb.dtype == object:
         if aa.shape != bb.shape:
@@ -1823,7 +1833,10 @@ def run(ctx):
     ctx.build(FILES)
     snapshot_pristine()
     ctx.cov['rule'] = (
-        'histories of length <= 8 (reads / setter assignments / calls) on one real object per case, over '
+        'histories of length <= 8 (reads / setter assignments / calls) on one real object per case; the READ alphabet '
+        'of Background2D, the profiles, the PSF machines and the apertures is derived from the object (every public '
+        'non-callable attribute, deprecated accessors such as background_mesh_masked / mesh_nmasked / fit_results '
+        'included, plot-free, gaussian_* excluded); over '
         'Background2D (filter_threshold none/low/mid/high x filter_size x Zoom/IDW interpolator, masks, units, '
         'coverage mask, bottleneck as installed), RadialProfile / CurveOfGrowth (normalize max/sum, unnormalize, '
         'zero / negative / NaN / all-masked profiles, units; reads of profile, profile_error, data_profile, '
